@@ -311,6 +311,15 @@ def gen_tied_case(rng, i):
         name, rec = rng.choice(pl.shipped_recipes())
         return Case(mb, info, recipe=rec, data=data, desc=name)
     cmds = []
+    if "tied_unread_constant" in info["tags"] and rng.random() < 0.5:
+        # everything (the OUTPUT pseudo-operator included) is static-range, but the operators reading the tied weight are switched
+        # off: the only request that would rewrite the shared buffer is the one of the exported, unread constant itself
+        cmds = [{"k": "add", "regex": ".*", "operation": "*", "cfg": pl.UNIFORM[rng.choice(["a8w8", "a16w8", "a8sw8t"])], "alg": "min_max_uniform_quantize"}]
+        for op in ("FULLY_CONNECTED", "EMBEDDING_LOOKUP", "ADD", "MUL"):
+            if rng.random() < 0.85:
+                cmds.append({"k": "add", "regex": ".*", "operation": op, "cfg": None, "alg": "no_quantize"})
+        info["tags"].add("only_unread_constant_requested")
+        return Case(mb, info, cmds=cmds, data=data, desc=[(c["regex"], c["operation"], c["alg"]) for c in cmds])
     if r < 0.5:
         cmds.append({"k": "add", "regex": ".*", "operation": "FULLY_CONNECTED", "cfg": rng.choice(list(pl.UNIFORM.values())), "alg": "min_max_uniform_quantize"})
     elif r < 0.65:
